@@ -148,7 +148,9 @@ func execC16R(t *testing.T, c C16RCase) *Verdict {
 			}
 		}})
 	}
-	out := sim.RunHBFree(sim.RConfig{Tape: c.Tape, Disabled: setOf(c.Disabled), MaxSteps: 4000}, workers)
+	disabled := setOf(c.Disabled)
+	disabled["auto.reporter*"] = true // the handler is called with package locks held
+	out := sim.RunHBFree(sim.RConfig{Tape: c.Tape, Disabled: disabled, MaxSteps: 4000}, workers)
 	nimports, nfailed := 0, 0
 	for i := range calls {
 		calls[i].order = i
